@@ -1,6 +1,7 @@
 import OntVerif.Model.VbftProto
 import OntVerif.Model.VbftImpl
 import OntVerif.Gen.SealGates
+import OntVerif.Gen.VbftIntake
 import OntVerif.Props.C28
 import OntVerif.Props.C31
 import Mathlib.Data.Fintype.Card
@@ -226,6 +227,12 @@ theorem C34_seal_sites_guarded : sites.all siteOk = true := by decide
 theorem C34_decision_gates : msgCommitGate = "commitDone" ∧ commitTimeoutGate = "commitDone" ∧ newRoundGate = "commitDone" ∧
     (sites.filter (fun s => s.callee == "setCommitDone")).length = 3 ∧
     (sites.filter (fun s => s.callee == "makeSealed")).length = 2 := by decide
+/-- **the proposal that is sealed is the one the commit verdict names**: every `return <proposal>` of `findBlockProposal`
+(block-pool loop and msg-pool fallback loop) sits under a guard comparing the proposal's proposer with the requested
+proposer (`Gen/VbftIntake.lean`, regenerated on every run) -/
+theorem C34_proposal_lookup_by_proposer :
+    OntVerif.Gen.VbftIntake.lookupUnderstood = true ∧ 1 ≤ OntVerif.Gen.VbftIntake.proposalReturns.length ∧
+    OntVerif.Gen.VbftIntake.proposalReturns.all (fun r => r.2.contains "proposer-eq") = true := by decide
 end gates
 
 /-- peers `i < N` whose *commit message* for `p` with a genuine committer signature is stored in the pool -/
